@@ -34,6 +34,9 @@ structure Code where
   /-- the pass branch compares the gov balance with the sum of all recorded deposits on the cache context, between the
   message loop and `writeCache()`, and treats a shortfall like a failing message -/
   passChecksEscrow : Bool
+  /-- the deposits of a tallied proposal are refunded / burned BEFORE the outcome switch runs the messages of a passing one
+  (so the messages cannot reach the proposal's own deposit); `false` = only after the messages were committed -/
+  settleBeforeMsgs : Bool := true
   deriving Repr, DecidableEq
 
 structure State where
@@ -74,6 +77,14 @@ def execMsgs (c : Code) : List PMsg → State → Option State
     | some s' => execMsgs c r s'
     | none => none
 
+/-- `case passes:` — the messages on a cache, [the escrow check on the cache], write or discard -/
+def passMsgs (c : Code) (ms : List PMsg) (s1 : State) : State :=
+  match execMsgs c ms s1 with
+  | none => s1                                         -- FAILED: cache discarded
+  | some s2 =>
+    if c.passChecksEscrow && decide (s2.bal < total s2.deps) then s1   -- FAILED: cache discarded
+    else s2                                            -- PASSED: writeCache()
+
 inductive Op where
   /-- a user's MsgDeposit / the initial deposit of MsgSubmitProposal: `n` coins move into the escrow, one record -/
   | deposit (pid n : Nat)
@@ -92,15 +103,15 @@ def step (c : Code) (s : State) (op : Op) : State :=
     | none => { s with halted := true }
     | some b => { s with bal := b, deps := without pid s.deps }
   | .pass pid ms =>
-    match settle pid s.deps s.bal with
-    | none => { s with halted := true }
-    | some b =>
-      let s1 : State := { s with bal := b, deps := without pid s.deps }
-      match execMsgs c ms s1 with
-      | none => s1                                         -- FAILED: cache discarded
-      | some s2 =>
-        if c.passChecksEscrow && decide (s2.bal < total s2.deps) then s1   -- FAILED: cache discarded
-        else s2                                            -- PASSED: writeCache()
+    if c.settleBeforeMsgs then
+      match settle pid s.deps s.bal with
+      | none => { s with halted := true }
+      | some b => passMsgs c ms { s with bal := b, deps := without pid s.deps }
+    else
+      let s1 := passMsgs c ms s
+      match settle pid s1.deps s1.bal with
+      | none => { s with halted := true }
+      | some b => { s1 with bal := b, deps := without pid s1.deps }
 
 def run (c : Code) (ops : List Op) (s : State) : State := ops.foldl (step c) s
 
